@@ -388,7 +388,12 @@ func (p *sparser) or() (*SExpr, error) {
 	}
 	for p.isOp("||") {
 		t := p.next()
-		r, err := p.and()
+		var r *SExpr
+		if pk := p.peek(); pk.k == "id" && (pk.s == "forall" || pk.s == "exists") {
+			r, err = p.expr()
+		} else {
+			r, err = p.and()
+		}
 		if err != nil {
 			return nil, err
 		}
@@ -658,8 +663,20 @@ type UFunc struct {
 	Line  int
 }
 
+type LemmaDef struct {
+	Name string
+}
+
+type SmtDef struct {
+	Mode string // "real", "fp" or "" (both)
+	Text string
+	File string
+	Line int
+}
+
 type AxiomDef struct {
 	Name string
+	Raw  string // raw SMT-LIB formula (smtaxiom); Expr is nil then
 	Expr *SExpr
 	Pkg  string
 	File string
@@ -702,6 +719,8 @@ type FuncContract struct {
 	FDef     bool // float divisions generate definedness obligations
 	Ghost    []*GhostStmt
 	Asserts  []*AssertAt
+	Uses     []string // axioms made available to this function's obligations
+	IsLemma  bool     // no function body: the ensures clauses are proved from the used axioms alone
 	File     string
 	Line     int
 	Reason   string // free text for trusted contracts
@@ -718,6 +737,8 @@ type SpecFile struct {
 	Axioms []*AxiomDef
 	Ghosts []*GhostDef
 	Funcs  []*FuncContract
+	Lemmas  []*LemmaDef
+	SmtDefs []*SmtDef
 }
 
 var clauseKeywords = map[string]bool{
@@ -725,6 +746,7 @@ var clauseKeywords = map[string]bool{
 	"props": true, "requires": true, "ensures": true, "modifies": true, "loop": true,
 	"invariant": true, "trusted": true, "inline": true, "mode": true, "params": true,
 	"maypanic": true, "fdef": true, "pure": true, "noalloc": true, "set": true, "reason": true,
+	"uses": true, "lemma": true, "smtaxiom": true, "smtdef": true, "guarded": true, "assert": true,
 }
 
 type rawLine struct {
@@ -801,6 +823,25 @@ func ParseSpecFile(path, pkgPath string) (*SpecFile, error) {
 			}
 			sf.Axioms = append(sf.Axioms, &AxiomDef{Name: strings.TrimSpace(rest[:k]), Expr: e, Pkg: pkgPath, File: path, Line: rl.line, Src: strings.TrimSpace(rest[k+1:])})
 			cur, curLoop = nil, nil
+		case "smtaxiom":
+			k := strings.Index(rest, ":")
+			if k < 0 {
+				return nil, fail(fmt.Errorf("smtaxiom NAME: (formula)"))
+			}
+			sf.Axioms = append(sf.Axioms, &AxiomDef{Name: strings.TrimSpace(rest[:k]), Raw: strings.TrimSpace(rest[k+1:]), Pkg: pkgPath, File: path, Line: rl.line, Src: strings.TrimSpace(rest[k+1:])})
+			cur, curLoop = nil, nil
+		case "smtdef":
+			sd := &SmtDef{Text: rest, File: path, Line: rl.line}
+			if strings.HasPrefix(rest, "real:") || strings.HasPrefix(rest, "fp:") {
+				k := strings.Index(rest, ":")
+				sd.Mode, sd.Text = rest[:k], strings.TrimSpace(rest[k+1:])
+			}
+			sf.SmtDefs = append(sf.SmtDefs, sd)
+			cur, curLoop = nil, nil
+		case "lemma":
+			cur = &FuncContract{Key: "lemma " + strings.TrimSpace(rest), Pkg: pkgPath, Loops: map[int]*LoopSpec{}, File: path, Line: rl.line, IsLemma: true}
+			curLoop = nil
+			sf.Funcs = append(sf.Funcs, cur)
 		case "ghost":
 			fs := strings.Fields(rest)
 			if len(fs) < 2 {
@@ -819,6 +860,8 @@ func ParseSpecFile(path, pkgPath string) (*SpecFile, error) {
 			switch kw {
 			case "props":
 				cur.Props = strings.Fields(rest)
+			case "uses":
+				cur.Uses = append(cur.Uses, strings.Fields(strings.ReplaceAll(rest, ",", " "))...)
 			case "params":
 				cur.Params = strings.Fields(strings.ReplaceAll(rest, ",", " "))
 			case "trusted":
@@ -995,15 +1038,40 @@ func parsePred(rest string, isSpec bool) (*PredDef, error) {
 
 func parseUFunc(rest string) (*UFunc, error) {
 	k := strings.Index(rest, "(")
-	e := strings.Index(rest, ")")
-	if k < 0 || e < k {
+	if k < 0 {
+		return nil, fmt.Errorf("ufunc NAME(Sort,...) Sort")
+	}
+	depth, e := 0, -1
+	for i := k; i < len(rest); i++ {
+		if rest[i] == '(' {
+			depth++
+		} else if rest[i] == ')' {
+			depth--
+			if depth == 0 {
+				e = i
+				break
+			}
+		}
+	}
+	if e < 0 {
 		return nil, fmt.Errorf("ufunc NAME(Sort,...) Sort")
 	}
 	uf := &UFunc{Name: strings.TrimSpace(rest[:k])}
-	for _, a := range strings.Split(rest[k+1:e], ",") {
-		a = strings.TrimSpace(a)
-		if a != "" {
-			uf.Args = append(uf.Args, a)
+	depth = 0
+	start := k + 1
+	for i := k + 1; i <= e; i++ {
+		c := rest[i]
+		if c == '(' {
+			depth++
+		} else if c == ')' && i < e {
+			depth--
+		}
+		if (c == ',' && depth == 0) || i == e {
+			a := strings.TrimSpace(rest[start:i])
+			if a != "" {
+				uf.Args = append(uf.Args, a)
+			}
+			start = i + 1
 		}
 	}
 	uf.Ret = strings.TrimSpace(rest[e+1:])
